@@ -765,6 +765,283 @@ Proof.
     rewrite Ho1. cbn [andb]. apply Hown; [reflexivity|exact Ho2].
 Qed.
 
+(* ---------- Tensor.fromFiber: the _addFiber registration ---------- *)
+Definition load_spec (lvl : nat) (t' : itree) (nx : nat) (rk : list (list nat))
+           (nx' : nat) (rk' : list (list nat)) : Prop :=
+  nx <= nx' /\ length rk' = length rk
+  /\ (forall x j Q, j < length rk -> (forall k, Q k = Nat.eqb j (k + lvl)) ->
+        cntl x (nth j rk' []) = cntl x (nth j rk []) + cnt x Q t')
+  /\ (forall x, cnt x tt_ t' = bump nx nx' x)
+  /\ owners_ok lvl t' = true.
+
+Lemma load_ok : forall t lvl nx rk t' nx' rk',
+  load lvl t nx rk = (t', nx', rk') -> load_spec lvl t' nx rk nx' rk'.
+Proof.
+  induction t as [v|es IH] using tree_ind'; intros lvl nx rk t' nx' rk' Hl.
+  - cbn [load] in Hl. inversion Hl; subst. split; [lia|]. split; [reflexivity|].
+    split; [intros; cbn [cnt]; lia|]. split; [intros x; rewrite bump_refl; reflexivity|reflexivity].
+  - rewrite load_node in Hl.
+    assert (Hlist : forall nx rk es' nx' rk',
+               load_list lvl es nx rk = (es', nx', rk') ->
+               nx <= nx' /\ length rk' = length rk
+               /\ (forall x j Q, j < length rk -> (forall k, Q k = Nat.eqb j (k + S lvl)) ->
+                     cntl x (nth j rk' []) = cntl x (nth j rk []) + cntf x Q es')
+               /\ (forall x, cntf x tt_ es' = bump nx nx' x)
+               /\ own_f (S lvl) es' = true).
+    { clear Hl nx rk t' nx' rk'.
+      induction es as [|[c t] es IHes]; intros nx rk es' nx' rk' Hl.
+      - cbn [load_list] in Hl. inversion Hl; subst. split; [lia|]. split; [reflexivity|].
+        split; [intros; rewrite cntf_nil; lia|]. split; [intros x; rewrite bump_refl; reflexivity|reflexivity].
+      - inversion IH as [|? ? Ht Hes]; subst. cbn [snd] in Ht. cbn [load_list] in Hl.
+        destruct (load (S lvl) t nx rk) as [[t1 nx1] rk1] eqn:Hl1.
+        destruct (load_list lvl es nx1 rk1) as [[l2 nx2] rk2] eqn:Hl2.
+        inversion Hl; subst es' nx' rk'. clear Hl.
+        destruct (Ht _ _ _ _ _ _ Hl1) as (A1 & A2 & A3 & A4 & A5).
+        destruct (IHes Hes _ _ _ _ _ Hl2) as (B1 & B2 & B3 & B4 & B5).
+        split; [lia|]. split; [congruence|]. split; [|split].
+        + intros x j Q Hj HQ. rewrite cntf_cons. cbn [snd].
+          rewrite (B3 x j Q); [|rewrite A2; exact Hj|exact HQ].
+          rewrite (A3 x j Q Hj HQ). lia.
+        + intros x. rewrite cntf_cons. cbn [snd].
+          rewrite A4, B4. apply bump_trans; assumption.
+        + unfold own_f in *. cbn [forallb snd]. rewrite A5, B5. reflexivity. }
+    destruct (load_list lvl es (S nx) (app_rank lvl nx rk)) as [[es' nx1] rk1] eqn:Hll.
+    inversion Hl; subst t' nx' rk'. clear Hl.
+    destruct (Hlist _ _ _ _ _ Hll) as (B1 & B2 & B3 & B4 & B5).
+    rewrite app_rank_length in B2, B3.
+    split; [lia|]. split; [exact B2|]. split; [|split].
+    + intros x j Q Hj HQ. rewrite cnt_node.
+      assert (HQ' : forall k, (fun j0 => Q (S j0)) k = Nat.eqb j (k + S lvl)).
+      { intros k. cbn beta. rewrite HQ. f_equal. lia. }
+      rewrite (B3 x j _ Hj HQ'), app_rank_nth. rewrite (HQ 0). cbn [plus].
+      destruct (Nat.eqb_spec j lvl) as [E|E]; cbn [andb]; [|lia].
+      subst j. apply Nat.ltb_lt in Hj. rewrite Hj. cbn [andb]. lia.
+    + intros x. rewrite cnt_node. change (fun k => tt_ (S k)) with tt_. rewrite B4.
+      unfold tt_ at 1. cbn [andb]. rewrite <- (bump_trans nx (S nx) nx1 x) by lia.
+      rewrite bump_S. reflexivity.
+    + rewrite owners_node, Nat.eqb_refl, B5. reflexivity.
+Qed.
+
+Lemma load_es_ok lvl : forall l nx rk l' nx' rk',
+  load_es lvl l nx rk = (l', nx', rk') ->
+  nx <= nx' /\ length rk' = length rk
+  /\ (forall x j Q, j < length rk -> (forall k, Q k = Nat.eqb j (k + S lvl)) ->
+        cntl x (nth j rk' []) = cntl x (nth j rk []) + cntf x Q l')
+  /\ (forall x, cntf x tt_ l' = bump nx nx' x)
+  /\ own_f (S lvl) l' = true.
+Proof.
+  induction l as [|[c t] l IH]; intros nx rk l' nx' rk' Hl.
+  - cbn [load_es] in Hl. inversion Hl; subst. split; [lia|]. split; [reflexivity|].
+    split; [intros; rewrite cntf_nil; lia|]. split; [intros x; rewrite bump_refl; reflexivity|reflexivity].
+  - cbn [load_es] in Hl.
+    destruct (load (S lvl) t nx rk) as [[t1 nx1] rk1] eqn:Hl1.
+    destruct (load_es lvl l nx1 rk1) as [[l2 nx2] rk2] eqn:Hl2.
+    inversion Hl; subst l' nx' rk'. clear Hl.
+    destruct (load_ok _ _ _ _ _ _ _ Hl1) as (A1 & A2 & A3 & A4 & A5).
+    destruct (IH _ _ _ _ _ Hl2) as (B1 & B2 & B3 & B4 & B5).
+    split; [lia|]. split; [congruence|]. split; [|split].
+    + intros x j Q Hj HQ. rewrite cntf_cons. cbn [snd].
+      rewrite (B3 x j Q); [|rewrite A2; exact Hj|exact HQ].
+      rewrite (A3 x j Q Hj HQ). lia.
+    + intros x. rewrite cntf_cons. cbn [snd]. rewrite A4, B4. apply bump_trans; assumption.
+    + unfold own_f in *. cbn [forallb snd]. rewrite A5, B5. reflexivity.
+Qed.
+
+(* ---------- replacing part of a fiber: some elements leave (their fibers are disowned), new
+   ones arrive (their fibers get fresh identities and are registered) ---------- *)
+Definition deadb (rem : ifib) (x : nat) : bool := negb (Nat.eqb (cntf x tt_ rem) 0).
+
+Lemma replace_mirror rid ow es es' rk nx rk' nx' L (rem add : ifib) :
+  MirrorC (INode rid ow es) rk nx ->
+  (forall x P Q, (forall k, Q k = P (k + L)) ->
+     cntf x P es' + cntf x Q rem = cntf x P es + cntf x Q add) ->
+  (forall x, cntf x tt_ rem <= cntf x tt_ es) ->
+  nx <= nx' -> length rk' = length rk ->
+  (forall x j Q, j < length rk -> (forall k, Q k = Nat.eqb j (k + S L)) ->
+     cntl x (nth j rk' []) = (if deadb rem x then 0 else cntl x (nth j rk [])) + cntf x Q add) ->
+  (forall x, cntf x tt_ add = bump nx nx' x) ->
+  (own_f 1 es = true -> own_f 1 es' = true) ->
+  MirrorC (INode rid ow es') rk' nx'.
+Proof.
+  intros (HA & HB & HC & HD) Htree Hold Hnx Hlen Hrank Hadd Hown.
+  assert (Htt : forall x, cntf x tt_ es' + cntf x tt_ rem = cntf x tt_ es + bump nx nx' x).
+  { intros x. rewrite <- Hadd. apply (Htree x tt_ tt_). reflexivity. }
+  split; [|split; [|split]].
+  - intros j x Hj. rewrite Hlen in Hj. specialize (HA j x Hj). specialize (HB x).
+    specialize (Htt x). specialize (Hold x). rewrite cnt_node in *.
+    change (fun k => tt_ (S k)) with tt_ in *.
+    set (Pj := fun k => Nat.eqb j (S k)) in *.
+    set (Qj := fun k => Nat.eqb j (S (k + L))).
+    pose proof (Htree x Pj Qj (fun k => eq_refl)) as Ht.
+    assert (HQj : forall k, Qj k = Nat.eqb j (k + S L)).
+    { intros k. unfold Qj. f_equal. lia. }
+    pose proof (Hrank x j Qj Hj HQj) as Hr.
+    pose proof (cntf_le_all x Qj rem). pose proof (cntf_le_all x Qj add).
+    pose proof (cntf_le_all x Pj es'). pose proof (cntf_le_all x Pj es).
+    specialize (Hadd x). unfold deadb in Hr.
+    destruct (Nat.eqb_spec (cntf x tt_ rem) 0) as [E|E]; cbn [negb] in Hr; [lia|].
+    (* a removed fiber: it was in the tree once, it is old, nothing of it remains *)
+    destruct (Nat.le_gt_cases nx x) as [Hx|Hx].
+    + specialize (HC x Hx). rewrite cnt_node in HC. change (fun k => tt_ (S k)) with tt_ in HC. lia.
+    + rewrite (bump_lt nx nx' x Hx) in *.
+      assert (Hr0 : (if (Nat.eqb j 0) && Nat.eqb rid x then 1 else 0) <= (if tt_ 0 && Nat.eqb rid x then 1 else 0)).
+      { unfold tt_. cbn [andb]. destruct (Nat.eqb j 0); cbn [andb]; destruct (Nat.eqb rid x); lia. }
+      lia.
+  - intros x. specialize (HB x). specialize (HC x). specialize (Htt x). rewrite cnt_node in *.
+    change (fun k => tt_ (S k)) with tt_ in *.
+    pose proof (bump_le1 nx nx' x). destruct (Nat.le_gt_cases nx x) as [Hx|Hx].
+    + specialize (HC Hx). lia.
+    + rewrite (bump_lt nx nx' x Hx) in Htt. lia.
+  - intros x Hx. assert (Hx' : nx <= x) by lia. specialize (HC x Hx'). specialize (Htt x).
+    rewrite cnt_node in *. change (fun k => tt_ (S k)) with tt_ in *.
+    rewrite (bump_ge nx nx' x Hx) in Htt. lia.
+  - rewrite owners_node in *. apply andb_true_iff in HD. destruct HD as [Ho1 Ho2].
+    rewrite Ho1. cbn [andb]. apply Hown. exact Ho2.
+Qed.
+
+(* what an update at one fiber must say about itself for [replace_mirror] *)
+Definition f_spec (L : nat) (e : ifib) (nx : nat) (rk : list (list nat))
+           (e' : ifib) (nx' : nat) (rk' : list (list nat)) : Prop :=
+  exists rem add,
+    (forall x Q, cntf x Q e' + cntf x Q rem = cntf x Q e + cntf x Q add)
+    /\ (forall x, cntf x tt_ rem <= cntf x tt_ e)
+    /\ nx <= nx' /\ length rk' = length rk
+    /\ (forall x j Q, j < length rk -> (forall k, Q k = Nat.eqb j (k + S L)) ->
+          cntl x (nth j rk' []) = (if deadb rem x then 0 else cntl x (nth j rk [])) + cntf x Q add)
+    /\ (forall x, cntf x tt_ add = bump nx nx' x)
+    /\ (own_f (S L) e = true -> own_f (S L) e' = true).
+
+Lemma cntf_nth_le x P : forall (es : ifib) i c t, nth_error es i = Some (c, t) -> cnt x P t <= cntf x P es.
+Proof.
+  induction es as [|a es IH]; intros [|i] c t H; cbn [nth_error] in H; try discriminate.
+  - inversion H; subst. rewrite cntf_cons. cbn [snd]. lia.
+  - rewrite cntf_cons. specialize (IH i c t H). lia.
+Qed.
+
+Lemma fiber_at_cnt_le x : forall path es e, fiber_at path es = Some e -> cntf x tt_ e <= cntf x tt_ es.
+Proof.
+  induction path as [|c path IH]; intros es e H; cbn [fiber_at] in H.
+  - inversion H; subst. lia.
+  - destruct (nth_error es (bisect c (map fst es))) as [[c' [v|id ow e1]]|] eqn:Hn; try discriminate.
+    destruct (Z.eqb c' c); [|discriminate]. specialize (IH e1 e H).
+    pose proof (cntf_nth_le x tt_ es _ _ _ Hn) as H1. rewrite cnt_node in H1.
+    change (fun k => tt_ (S k)) with tt_ in H1. lia.
+Qed.
+
+Lemma spec_mirror s path f es' nx' rk' :
+  wf_st s -> Mirror s ->
+  (forall e nx rk e1 nx1 rk1, f (length path) e nx rk = (e1, nx1, rk1) ->
+                              f_spec (length path) e nx rk e1 nx1 rk1) ->
+  at_path_st path f 0 (root_es s) (s_next s) (s_ranks s) = Some (es', nx', rk') ->
+  Mirror (with_root s es' nx' rk').
+Proof.
+  intros (rid & ow & es & Hr & Hn & Hw) HM Hf Hat. rewrite (root_es_of s rid ow es Hr) in Hat.
+  destruct (at_path_st_cnt f path 0 (length path) es _ _ es' nx' rk' eq_refl Hat)
+    as (e & e' & Hfa & Hfe & Hcnt & Hown).
+  destruct (Hf _ _ _ _ _ _ Hfe) as (rem & add & S1 & S2 & S3 & S4 & S5 & S6 & S7).
+  apply Mirror_C. apply Mirror_C in HM. unfold with_root. rewrite Hr in *.
+  cbn [s_root s_ranks s_next].
+  apply (replace_mirror rid ow es es' (s_ranks s) (s_next s) rk' nx' (length path) rem add HM).
+  - intros x P Q HQ. pose proof (Hcnt x P Q HQ). pose proof (S1 x Q). lia.
+  - intros x. pose proof (S2 x). pose proof (fiber_at_cnt_le x path es e Hfa). lia.
+  - exact S3.
+  - exact S4.
+  - exact S5.
+  - exact S6.
+  - apply Hown. exact S7.
+Qed.
+
+Lemma drop_dead_nth x dead rk j :
+  cntl x (nth j (drop_dead dead rk) [])
+  = if Nat.eqb (cntl x dead) 0 then cntl x (nth j rk []) else 0.
+Proof.
+  unfold drop_dead.
+  set (g := filter (fun id => negb (existsb (Nat.eqb id) dead))).
+  assert (Hnth : nth j (map g rk) [] = g (nth j rk [])) by (apply (map_nth g rk [] j)).
+  rewrite Hnth. unfold g. rewrite cntl_filter, existsb_eqb_cntl, negb_involutive. reflexivity.
+Qed.
+
+Lemma append_fib_spec c t L e nx rk e' nx' rk' :
+  append_fib c t L e nx rk = (e', nx', rk') -> f_spec L e nx rk e' nx' rk'.
+Proof.
+  unfold append_fib. destruct (load (S L) t nx rk) as [[t1 nx1] rk1] eqn:Hl. intros H.
+  inversion H; subst e' nx' rk'. clear H.
+  destruct (load_ok _ _ _ _ _ _ _ Hl) as (A1 & A2 & A3 & A4 & A5).
+  exists [], [(c, t1)]. split; [|split; [|split; [|split; [|split; [|split]]]]].
+  - intros x Q. rewrite cntf_app, cntf_nil. lia.
+  - intros x. rewrite cntf_nil. lia.
+  - exact A1.
+  - exact A2.
+  - intros x j Q Hj HQ. cbn [deadb]. unfold deadb. rewrite cntf_nil. cbn [Nat.eqb negb].
+    rewrite cntf_cons, cntf_nil. cbn [snd]. rewrite (A3 x j Q Hj HQ). lia.
+  - intros x. rewrite cntf_cons, cntf_nil. cbn [snd]. rewrite A4. lia.
+  - intros Ho. unfold own_f in *. rewrite forallb_app, Ho. cbn [forallb snd]. rewrite A5. reflexivity.
+Qed.
+
+Lemma extend_fib_spec l L e nx rk e' nx' rk' :
+  extend_fib l L e nx rk = (e', nx', rk') -> f_spec L e nx rk e' nx' rk'.
+Proof.
+  unfold extend_fib. destruct (load_es L l nx rk) as [[l1 nx1] rk1] eqn:Hl. intros H.
+  inversion H; subst e' nx' rk'. clear H.
+  destruct (load_es_ok _ _ _ _ _ _ _ Hl) as (A1 & A2 & A3 & A4 & A5).
+  exists [], l1. split; [|split; [|split; [|split; [|split; [|split]]]]].
+  - intros x Q. rewrite cntf_app, cntf_nil. lia.
+  - intros x. rewrite cntf_nil. lia.
+  - exact A1.
+  - exact A2.
+  - intros x j Q Hj HQ. unfold deadb. rewrite cntf_nil. cbn [Nat.eqb negb]. apply (A3 x j Q Hj HQ).
+  - exact A4.
+  - intros Ho. unfold own_f in *. rewrite forallb_app, Ho. exact A5.
+Qed.
+
+Lemma setitem_fib_spec i t L e nx rk e' nx' rk' :
+  setitem_fib i t L e nx rk = (e', nx', rk') -> f_spec L e nx rk e' nx' rk'.
+Proof.
+  unfold setitem_fib. destruct (nth_error e i) as [[c0 old]|] eqn:Hn.
+  - destruct (load (S L) t nx (drop_dead (all_ids old) rk)) as [[t1 nx1] rk1] eqn:Hl. intros H.
+    inversion H; subst e' nx' rk'. clear H.
+    destruct (load_ok _ _ _ _ _ _ _ Hl) as (A1 & A2 & A3 & A4 & A5).
+    unfold drop_dead in A2, A3. rewrite map_length in A2, A3. fold (drop_dead (all_ids old) rk) in A3.
+    exists [(c0, old)], [(c0, t1)]. split; [|split; [|split; [|split; [|split; [|split]]]]].
+    + intros x Q. rewrite !cntf_cons, !cntf_nil. cbn [snd].
+      pose proof (cntf_set_nth x Q e i c0 t1 c0 old Hn). lia.
+    + intros x. rewrite cntf_cons, cntf_nil. cbn [snd].
+      pose proof (cntf_nth_le x tt_ e i c0 old Hn). lia.
+    + exact A1.
+    + exact A2.
+    + intros x j Q Hj HQ. rewrite (A3 x j Q Hj HQ), drop_dead_nth, cnt_all_ids.
+      unfold deadb. rewrite !cntf_cons, !cntf_nil. cbn [snd]. rewrite !Nat.add_0_r.
+      destruct (Nat.eqb (cnt x tt_ old) 0); reflexivity.
+    + intros x. rewrite cntf_cons, cntf_nil. cbn [snd]. rewrite A4. lia.
+    + intros Ho. eapply own_f_set_nth; [exact Ho|exact Hn|exact A5].
+  - intros H. inversion H; subst e' nx' rk'. clear H.
+    exists [], []. split; [|split; [|split; [|split; [|split; [|split]]]]].
+    + intros x Q. lia.
+    + intros x. rewrite cntf_nil. lia.
+    + lia.
+    + reflexivity.
+    + intros x j Q Hj HQ. unfold deadb. rewrite !cntf_nil. cbn [Nat.eqb negb]. lia.
+    + intros x. rewrite cntf_nil, bump_refl. reflexivity.
+    + intros Ho. exact Ho.
+Qed.
+
+Lemma assign_fib_spec l L e nx rk e' nx' rk' :
+  assign_fib l L e nx rk = (e', nx', rk') -> f_spec L e nx rk e' nx' rk'.
+Proof.
+  unfold assign_fib. intros Hl.
+  destruct (load_es_ok _ _ _ _ _ _ _ Hl) as (A1 & A2 & A3 & A4 & A5).
+  unfold drop_dead in A2, A3. rewrite map_length in A2, A3. fold (drop_dead (all_ids_fib e) rk) in A3.
+  exists e, e'. split; [|split; [|split; [|split; [|split; [|split]]]]].
+  - intros x Q. lia.
+  - intros x. lia.
+  - exact A1.
+  - exact A2.
+  - intros x j Q Hj HQ. rewrite (A3 x j Q Hj HQ), drop_dead_nth, cntf_all_ids.
+    unfold deadb. destruct (Nat.eqb (cntf x tt_ e) 0); reflexivity.
+  - exact A4.
+  - intros _. exact A5.
+Qed.
+
 (* ---------- every operation keeps the invariant ---------- *)
 Lemma at_path_st_mirror s path f es' nx' rk' :
   wf_st s -> Mirror s ->
@@ -848,6 +1125,46 @@ Proof.
     intros L e nx0 rk0 e1 nx1 rk1 H. eapply get_ref_single_delta. exact H.
   - (* OGetD *)
     destruct (Nat.leb (length pt) (nranks s) && negb (Nat.eqb (length pt) 0)); exact HM.
+  - (* OAppendFib *)
+    destruct (Nat.ltb (S (length path)) (nranks s) && plain_wf (nranks s - S (length path)) t);
+      [|exact HM].
+    destruct (fiber_at path (root_es s)) as [e|]; [|exact HM].
+    destruct (match last_coord e with Some m => Z.ltb m c | None => true end); [|exact HM].
+    destruct (at_path_st path _ 0 (root_es s) (s_next s) (s_ranks s)) as [[[es' nx] rk]|] eqn:Hat;
+      [|exact HM].
+    cbn [fst]. refine (spec_mirror s path _ es' nx rk Hs HM _ Hat).
+    intros e0 nx0 rk0 e1 nx1 rk1 H. eapply append_fib_spec. exact H.
+  - (* OExtend *)
+    destruct t as [v|l]; [exact HM|].
+    destruct (Nat.ltb (length path) (nranks s) && plain_wf (nranks s - length path) (Node l));
+      [|exact HM].
+    destruct (fiber_at path (root_es s)) as [e|]; [|exact HM].
+    destruct (is_empty (s_d s) (Node l)); [exact HM|].
+    destruct (match last_coord e, l with Some m, (c0, _) :: _ => Z.ltb m c0 | _, _ => true end);
+      [|exact HM].
+    destruct (at_path_st path _ 0 (root_es s) (s_next s) (s_ranks s)) as [[[es' nx] rk]|] eqn:Hat;
+      [|exact HM].
+    cbn [fst]. refine (spec_mirror s path _ es' nx rk Hs HM _ Hat).
+    intros e0 nx0 rk0 e1 nx1 rk1 H. eapply extend_fib_spec. exact H.
+  - (* OSetItemFib *)
+    destruct (Nat.ltb (S (length path)) (nranks s) && plain_wf (nranks s - S (length path)) t);
+      [|exact HM].
+    destruct (fiber_at path (root_es s)) as [e|]; [|exact HM]. cbv zeta.
+    destruct ((Z.ltb (if Z.ltb pos 0 then (pos + Z.of_nat (length e))%Z else pos) 0)
+              || (Z.leb (Z.of_nat (length e)) (if Z.ltb pos 0 then (pos + Z.of_nat (length e))%Z else pos)));
+      [exact HM|].
+    destruct (at_path_st path _ 0 (root_es s) (s_next s) (s_ranks s)) as [[[es' nx] rk]|] eqn:Hat;
+      [|exact HM].
+    cbn [fst]. refine (spec_mirror s path _ es' nx rk Hs HM _ Hat).
+    intros e0 nx0 rk0 e1 nx1 rk1 H. eapply setitem_fib_spec. exact H.
+  - (* OAssignFib *)
+    destruct (prune (s_d s) t) as [v|l]; [exact HM|].
+    destruct (Nat.ltb (length path) (nranks s) && plain_wf (nranks s - length path) t);
+      [|exact HM].
+    destruct (at_path_st path _ 0 (root_es s) (s_next s) (s_ranks s)) as [[[es' nx] rk]|] eqn:Hat;
+      [|exact HM].
+    cbn [fst]. refine (spec_mirror s path _ es' nx rk Hs HM _ Hat).
+    intros e0 nx0 rk0 e1 nx1 rk1 H. eapply assign_fib_spec. exact H.
 Qed.
 
 Theorem run_mirror : forall ops s, wf_st s -> Mirror s -> wf_st (run s ops) /\ Mirror (run s ops).
@@ -858,63 +1175,6 @@ Qed.
 
 Theorem run_prefix_mirror ops s k : wf_st s -> Mirror s -> Mirror (run s (firstn k ops)).
 Proof. intros Hs HM. apply run_mirror; assumption. Qed.
-
-(* ---------- Tensor.fromFiber: the _addFiber registration ---------- *)
-Definition load_spec (lvl : nat) (t' : itree) (nx : nat) (rk : list (list nat))
-           (nx' : nat) (rk' : list (list nat)) : Prop :=
-  nx <= nx' /\ length rk' = length rk
-  /\ (forall x j Q, j < length rk -> (forall k, Q k = Nat.eqb j (k + lvl)) ->
-        cntl x (nth j rk' []) = cntl x (nth j rk []) + cnt x Q t')
-  /\ (forall x, cnt x tt_ t' = bump nx nx' x)
-  /\ owners_ok lvl t' = true.
-
-Lemma load_ok : forall t lvl nx rk t' nx' rk',
-  load lvl t nx rk = (t', nx', rk') -> load_spec lvl t' nx rk nx' rk'.
-Proof.
-  induction t as [v|es IH] using tree_ind'; intros lvl nx rk t' nx' rk' Hl.
-  - cbn [load] in Hl. inversion Hl; subst. split; [lia|]. split; [reflexivity|].
-    split; [intros; cbn [cnt]; lia|]. split; [intros x; rewrite bump_refl; reflexivity|reflexivity].
-  - rewrite load_node in Hl.
-    assert (Hlist : forall nx rk es' nx' rk',
-               load_list lvl es nx rk = (es', nx', rk') ->
-               nx <= nx' /\ length rk' = length rk
-               /\ (forall x j Q, j < length rk -> (forall k, Q k = Nat.eqb j (k + S lvl)) ->
-                     cntl x (nth j rk' []) = cntl x (nth j rk []) + cntf x Q es')
-               /\ (forall x, cntf x tt_ es' = bump nx nx' x)
-               /\ own_f (S lvl) es' = true).
-    { clear Hl nx rk t' nx' rk'.
-      induction es as [|[c t] es IHes]; intros nx rk es' nx' rk' Hl.
-      - cbn [load_list] in Hl. inversion Hl; subst. split; [lia|]. split; [reflexivity|].
-        split; [intros; rewrite cntf_nil; lia|]. split; [intros x; rewrite bump_refl; reflexivity|reflexivity].
-      - inversion IH as [|? ? Ht Hes]; subst. cbn [snd] in Ht. cbn [load_list] in Hl.
-        destruct (load (S lvl) t nx rk) as [[t1 nx1] rk1] eqn:Hl1.
-        destruct (load_list lvl es nx1 rk1) as [[l2 nx2] rk2] eqn:Hl2.
-        inversion Hl; subst es' nx' rk'. clear Hl.
-        destruct (Ht _ _ _ _ _ _ Hl1) as (A1 & A2 & A3 & A4 & A5).
-        destruct (IHes Hes _ _ _ _ _ Hl2) as (B1 & B2 & B3 & B4 & B5).
-        split; [lia|]. split; [congruence|]. split; [|split].
-        + intros x j Q Hj HQ. rewrite cntf_cons. cbn [snd].
-          rewrite (B3 x j Q); [|rewrite A2; exact Hj|exact HQ].
-          rewrite (A3 x j Q Hj HQ). lia.
-        + intros x. rewrite cntf_cons. cbn [snd].
-          rewrite A4, B4. apply bump_trans; assumption.
-        + unfold own_f in *. cbn [forallb snd]. rewrite A5, B5. reflexivity. }
-    destruct (load_list lvl es (S nx) (app_rank lvl nx rk)) as [[es' nx1] rk1] eqn:Hll.
-    inversion Hl; subst t' nx' rk'. clear Hl.
-    destruct (Hlist _ _ _ _ _ Hll) as (B1 & B2 & B3 & B4 & B5).
-    rewrite app_rank_length in B2, B3.
-    split; [lia|]. split; [exact B2|]. split; [|split].
-    + intros x j Q Hj HQ. rewrite cnt_node.
-      assert (HQ' : forall k, (fun j0 => Q (S j0)) k = Nat.eqb j (k + S lvl)).
-      { intros k. cbn beta. rewrite HQ. f_equal. lia. }
-      rewrite (B3 x j _ Hj HQ'), app_rank_nth. rewrite (HQ 0). cbn [plus].
-      destruct (Nat.eqb_spec j lvl) as [E|E]; cbn [andb]; [|lia].
-      subst j. apply Nat.ltb_lt in Hj. rewrite Hj. cbn [andb]. lia.
-    + intros x. rewrite cnt_node. change (fun k => tt_ (S k)) with tt_. rewrite B4.
-      unfold tt_ at 1. cbn [andb]. rewrite <- (bump_trans nx (S nx) nx1 x) by lia.
-      rewrite bump_S. reflexivity.
-    + rewrite owners_node, Nat.eqb_refl, B5. reflexivity.
-Qed.
 
 Lemma init_mirror_gen n d t : Mirror (init n d t).
 Proof.
